@@ -22,7 +22,6 @@ ALLOWED = [
     ('parso/cache.py:_set_cache_item', 'assign', 'parser_cache[key]'),
     ('parso/cache.py:_set_cache_item', 'call.setdefault', 'parser_cache'),
     ('parso/cache.py:clear_cache', 'call.clear', 'parser_cache'),
-    ('parso/cache.py:clear_inactive_cache', 'call.remove', 'os'),
     ('parso/grammar.py:load_grammar', 'call.setdefault', '_loaded_grammars'),
     ('parso/normalizer.py:Normalizer.register_rule.decorator', 'call.setdefault', 'cls.rule_type_classes'),
     ('parso/normalizer.py:Normalizer.register_rule.decorator', 'call.setdefault', 'cls.rule_value_classes'),
@@ -183,7 +182,7 @@ def run(ctx, b, drv):
     if extra:
         pend.add('obligation-failed:write-set', dict(kind='theorem', obligation='write-set allow-list (harness/writeset.py)', new_writes=[list(x) for x in extra]))
     ctx.cov['write_set'] = [list(w) for w in ws]
-    nruns = base.scale(ctx, 16)
+    nruns = base.scale(ctx, 10)
     for i in range(nruns):
         r = gens.rng(ctx.seed, 'schedules', i)
         n = r.randint(2, 8)
@@ -219,7 +218,7 @@ def run(ctx, b, drv):
             do_task(t)
         if fingerprint() != fp0:
             ctx.violation('C18:shared-state-changed-by-repeated-call', dict(kind='schedule', tasks=[list(t) for t in tasks[:2]]))
-        schedule = [(r.randrange(n), r.choice([1, 1, 2, 3, 5, 8, 13, 40])) for _ in range(r.randint(50, 400))]
+        schedule = [(r.randrange(n), r.choice([1, 1, 2, 3, 5, 8, 13, 40])) for _ in range(r.randint(40, 250))]
         res, switches = run_threads(tasks, schedule, fresh_tables=(i % 2 == 0))
         ctx.count('schedules')
         ctx.nontrivial(('sched', i, switches))
